@@ -73,8 +73,9 @@ structure Prog where
   body : Nat → List Op
   K : Nat                 -- the hook panics at its K-th call (0 = never)
   U : Unroll
-  savesPanic : Bool       -- `rundefer` puts back `PanicFun`/`Panic` when the deferred call is over
-                          -- (false for the code as it stands; true with fixes/C12-panic-bookkeeping.diff; extracted)
+  savesPanic : Bool       -- `reExecWithFlags` remembers `Panic`/`PanicFun` the first time one of its `rundefer`
+                          -- starts panicking and reinstates them when the function is left (gomacro commit
+                          -- a642365; extracted from the source, false for older trees)
 
 def Prog.withDefers (P : Prog) (f : Nat) : Bool := (P.body f).any Op.isDfr
 
@@ -206,8 +207,12 @@ def execFn (P : Prog) : Nat → Nat → Nat → St → Out × St
       let s := { s with run := { s.run with efDefer := s.run.efStart, efStart := false, interrupt := .nil } }
       match runOps P fuel (P.body f) { env := env, flags := true } s with
       | (o, a, s) =>
-        match runDefers P fuel env a.defers o s with
-        | (o, s) =>
+        match runDefers P fuel env a.defers o none s with
+        | (o, sv, s) =>
+          -- Go-deferred closure `if saved { run.Panic, run.PanicFun = savedPanic, savedPanicFun }`
+          let s := match sv with
+            | some (pf, pv) => { s with run := { s.run with panicFun := pf, panicVal := pv } }
+            | none => s
           -- restore
           (o, { s with run := { s.run with efDefer := savedDefer, interrupt := savedIntr, currEnv := savedCaller, sync := .none } })
     else
@@ -218,16 +223,16 @@ def execFn (P : Prog) : Nat → Nat → Nat → St → Out × St
       | (.panic v, _, s) => (.panic v, s)
 
 /-- the Go-deferred `rundefer(fun)` calls of one `reExecWithFlags` frame, last installed first;
-    `o` is the panic state of the frame (`panicking`) -/
-def runDefers (P : Prog) : Nat → Nat → List Nat → Out → St → Out × St
-  | 0, _, _, _, s => (.panic noFuel, s)
-  | _ + 1, _, [], o, s => (o, s)
-  | fuel + 1, funenv, f :: ds, o, s =>
-    -- (repaired code only) `defer restorePanic(run, run.PanicFun, run.Panic)`
-    let savedPF := s.run.panicFun
-    let savedPV := s.run.panicVal
-    -- `run.Panic = recover()` when panicking
+    `o` is the panic state of the frame (`panicking`), `sv` its `saved`/`savedPanic`/`savedPanicFun` -/
+def runDefers (P : Prog) : Nat → Nat → List Nat → Out → Option (Option Nat × Option Nat) → St →
+    Out × Option (Option Nat × Option Nat) × St
+  | 0, _, _, _, sv, s => (.panic noFuel, sv, s)
+  | _ + 1, _, [], o, sv, s => (o, sv, s)
+  | fuel + 1, funenv, f :: ds, o, sv, s =>
     let panicking := match o with | .panic _ => true | .ok => false
+    -- `if !saved { saved = true; savedPanic, savedPanicFun = run.Panic, run.PanicFun }`
+    let sv := if panicking && P.savesPanic && sv.isNone then some (s.run.panicFun, s.run.panicVal) else sv
+    -- `run.Panic = recover()` when panicking
     let s := match o with
       | .panic v => { s with run := { s.run with panicVal := some v } }
       | .ok => s
@@ -243,8 +248,7 @@ def runDefers (P : Prog) : Nat → Nat → List Nat → Out → St → Out × St
         | .panic v2 => Out.panic v2
         | .ok => if panicking && s.run.panicFun.isSome then Out.panic (s.run.panicVal.getD 0) else Out.ok
       let s := { s with run := { s.run with deferOfFun := savedDOF, efStart := false, efDefer := savedIsDefer } }
-      let s := if P.savesPanic then { s with run := { s.run with panicFun := savedPF, panicVal := savedPV } } else s
-      runDefers P fuel funenv ds o' s
+      runDefers P fuel funenv ds o' sv s
 end
 
 /-- what an evaluation runs: the expression `f()` or the statements of `f` as top-level code (funenv = Env 0) -/
